@@ -1,4 +1,5 @@
 import XcpProofs.FsDefs
+import XcpProofs.FsFrame
 /-! # C03 — sources and bystander files are never modified, even by self-copies or kills
 
 Model slice: `validate` (identity-based same-file test per source), `execOp` (the same-file guard before
@@ -17,34 +18,45 @@ open Xcp
 before anything is created or truncated -/
 theorem self_copy_refused (fs : Fs) (c : Cfg) (s t : RPath) (he : fs.exists t = true) (hs : fs.sameFile s t = true) :
     execOp fs c (.copy s t) = none := by
-  sorry
+  simp only [execOp, he, hs, Bool.and_self, if_true]
+  cases fs.contentOf s <;> rfl
 
 /-- and the invocation as a whole is rejected up front when a source is its own target -/
 theorem self_copy_rejected_up_front (fs : Fs) (o : Opts) (dest s tb : RPath)
     (ht : targetBase fs o.cfg dest s = some tb) (he : fs.exists tb = true) (hs : fs.sameFile s tb = true) :
     ∃ r, checkSource fs o dest s = .error r := by
-  sorry
+  simp only [checkSource, ht, he, hs, if_true]
+  repeat' split
+  all_goals exact ⟨_, rfl⟩
 
 /-- a refused or failed operation is a no-op -/
 theorem failed_op_changes_nothing (fs : Fs) (c : Cfg) (op : Op) (post : List Op) (h : execOp fs c op = none) :
     (execOps fs c (op :: post)).fs = fs := by
-  sorry
+  simp [execOps, h]
 
 /-- frame: an operation on a plain target changes only what is at or below the target, and the entry lists of
 the target's ancestor directories -/
 theorem plain_op_frame (fs fs' : Fs) (c : Cfg) (op : Op) (t : RPath) (ht : opTarget op = some t)
     (hp : PlainTarget fs t) (h : execOp fs c op = some fs') :
     ∀ q, ¬ (t.names <+: q) → ¬ (q <+: t.names) → fs'.root.getAt q = fs.root.getAt q := by
-  sorry
+  rw [plainTarget_eq fs t hp] at ht
+  exact (execOp_plain fs fs' c op t.names ht hp.2.2.2 h).1
 
 /-- … and does not change the kind of an ancestor: it is still a directory, with its other entries intact -/
 theorem plain_op_keeps_ancestors (fs fs' : Fs) (c : Cfg) (op : Op) (t : RPath) (ht : opTarget op = some t)
     (hp : PlainTarget fs t) (h : execOp fs c op = some fs') :
     ∀ q es, q <+: t.names → q ≠ t.names → fs.root.getAt q = some (.dir es) → ∃ es', fs'.root.getAt q = some (.dir es') := by
-  sorry
+  rw [plainTarget_eq fs t hp] at ht
+  exact (execOp_plain fs fs' c op t.names ht hp.2.2.2 h).2
 
 /-- the working directory never changes -/
 theorem cwd_unchanged (fs : Fs) (c : Cfg) (ops : List Op) : (execOps fs c ops).fs.cwd = fs.cwd := by
-  sorry
+  induction ops generalizing fs with
+  | nil => rfl
+  | cons op r ih =>
+    simp only [execOps]
+    cases he : execOp fs c op with
+    | none => rfl
+    | some fs' => exact (ih fs').trans (execOp_cwd fs fs' c op he)
 
 end Xcp.C03
